@@ -110,7 +110,8 @@ def tree_spec(draw, tier):
     spec = {
         "entries": entries, "tables": tables, "headers": {"seq": [s1, s2], "bad_other": draw(st.sampled_from(["", "", "version", "signature", "replay"]))},
         "object_table": {"holes": draw(st.lists(st.integers(0, 8), max_size=3, unique=True)), "hole_type": draw(st.sampled_from([0, 0, 2, 3, 4])),
-                         "chain_at": draw(st.sampled_from([None, None, 0, 1, 3])), "trailing": draw(st.integers(0, 3))},
+                         "chain_at": draw(st.sampled_from([None, None, 0, 1, 3])), "trailing": draw(st.integers(0, 3)),
+                         "chain_depth": draw(st.sampled_from([1, 2, 2])), "chain_backwards": draw(st.booleans())},
         "gap": draw(st.sampled_from([0, 0, 1])),
     }
     return spec
